@@ -5,6 +5,7 @@ import (
 	"crypto"
 	"crypto/x509"
 	"fmt"
+	"hash"
 	"math/rand/v2"
 	"net/http"
 	"strings"
@@ -43,6 +44,9 @@ type c01Scenario struct {
 	entryRaw func(i int, b []byte) []byte          // alter 63 bytes
 	to1d     func(t *cose.Sign1[protocol.To1d, []byte]) *cose.Sign1[protocol.To1d, []byte]
 	withheld bool // a proof listed in the property is withheld: must abort before 64
+	// hmacFails: the device's HMAC is hardware-backed and its final step fails (tpm/hmac.go: Sum appends nothing, the error
+	// shows only through Err()); the device then cannot have verified the header and must abort. Not part of the model's input.
+	hmacFails bool
 }
 
 func c01(x *runCtx) {
@@ -173,6 +177,10 @@ func c01Kind(x *runCtx, ctx context.Context, r *rand.Rand, k lab.Kind, enc proto
 		{what: "61-numentries-less", proof: pl(func(v *fdo.VerifOVHProof) { v.NumOVEntries-- }), withheld: true},
 		{what: "61-numentries-more", proof: pl(func(v *fdo.VerifOVHProof) { v.NumOVEntries++ }), withheld: true},
 		{what: "61-hmac", proof: pl(func(v *fdo.VerifOVHProof) { v.OVHHmac.Value[0] ^= 1 }), withheld: true},
+		{what: "61-hmac-value-empty-resigned", proof: plr(func(v *fdo.VerifOVHProof) { v.OVHHmac.Value = []byte{} }), withheld: true},
+		{what: "device-hmac-fails-honest-61", withheld: true, hmacFails: true},
+		{what: "device-hmac-fails-61-hmac-value-empty-resigned", proof: plr(func(v *fdo.VerifOVHProof) { v.OVHHmac.Value = []byte{} }), withheld: true, hmacFails: true},
+		{what: "device-hmac-fails-61-hmac-value-nil-resigned", proof: plr(func(v *fdo.VerifOVHProof) { v.OVHHmac.Value = nil }), withheld: true, hmacFails: true},
 		{what: "61-nonce", proof: pl(func(v *fdo.VerifOVHProof) { v.NonceTO2ProveOV[0] ^= 1 }), withheld: true},
 		{what: "61-kexparam", proof: pl(func(v *fdo.VerifOVHProof) { v.KeyExchangeA[len(v.KeyExchangeA)-1] ^= 1 }), withheld: true},
 		{what: "61-hellohash", proof: pl(func(v *fdo.VerifOVHProof) { v.HelloDeviceHash.Value[0] ^= 1 }), withheld: true},
@@ -271,6 +279,25 @@ func c01Kind(x *runCtx, ctx context.Context, r *rand.Rand, k lab.Kind, enc proto
 			resignProof(p, "mfg", true)
 			return true
 		}},
+		// the same voucher with the header MAC emptied: nothing but the device's own HMAC check covers the MAC when there are
+		// no entries (entry 0's previous-hash is what covers it otherwise)
+		{what: "no-entries-manufacturer-as-owner-hmac-value-empty", proof: func(p *proofTag) bool {
+			p.Payload.Val.NumOVEntries = 0
+			p.Payload.Val.OVHHmac.Value = []byte{}
+			resignProof(p, "mfg", true)
+			return true
+		}, withheld: true},
+		{what: "device-hmac-fails-no-entries-manufacturer-as-owner", proof: func(p *proofTag) bool {
+			p.Payload.Val.NumOVEntries = 0
+			resignProof(p, "mfg", true)
+			return true
+		}, withheld: true, hmacFails: true},
+		{what: "device-hmac-fails-no-entries-manufacturer-as-owner-hmac-value-empty", proof: func(p *proofTag) bool {
+			p.Payload.Val.NumOVEntries = 0
+			p.Payload.Val.OVHHmac.Value = []byte{}
+			resignProof(p, "mfg", true)
+			return true
+		}, withheld: true, hmacFails: true},
 		// two cooperating alterations (after the honest run above, in the same process): the last entry names a stranger's key but
 		// keeps the genuine entry's signature bytes, and the stranger signs 61 and advertises its key
 		{what: "last-entry-key-replaced-signature-kept-61-resigned-by-that-key", proof: func(p *proofTag) bool { resignProof(p, "own3", true); return true },
@@ -487,6 +514,11 @@ func c01Run(x *runCtx, ctx context.Context, env *c01Env, s c01Scenario) {
 	var cred *fdo.DeviceCredential
 	var err error
 	j0 := env.st.JournalLen()
+	if s.hmacFails {
+		fail := true
+		env.a.WrapHmac = func(h hash.Hash) hash.Hash { return &lab.FailingHmac{Hash: h, FailNext: &fail} }
+		defer func() { env.a.WrapHmac = nil }()
+	}
 	res := step(func() error {
 		cred, err = env.w.TO2(ctx, env.a, blob, lab.TO2Opts{Kex: kexFor(env.k), Cipher: kex.A128GcmCipher, Reuse: true,
 			Modules: map[string]serviceinfo.DeviceModule{"ping": dev}}, tap)
@@ -539,7 +571,7 @@ func c01Run(x *runCtx, ctx context.Context, env *c01Env, s c01Scenario) {
 	}
 	_ = j0
 	// model
-	if hello == nil {
+	if hello == nil || s.hmacFails {
 		return
 	}
 	model := c01Model(x, env, hello, got61, h63s, h1d)
